@@ -75,6 +75,8 @@ DOCS = (
     [['**kern', '**kern', '**dynam'], ['4c', '4e', 'f'], [], [], ['4d', '4f', 'p'], ['*^', '*', '*'], ['4g', '4a', '4b', '.'], ['*v', '*v', '*', '*'], ['2cc', '2dd', 'mf'], ['*-', '*-', '*-']],
     [['!!!COM: x'], ['**kern'], ['4c'], ['4d'], ['4e'], ['4f'], ['*-']],
     [['**root', '**kern', '**text'], ['C', '4c', 'la'], ['=1', '=1', '=1'], ['G', '4d', 'li'], ['4A', '4e', 'lu'], ['*-', '*-', '*-']],
+    # a long column: runs of malformed cells directly below each other in one spine, with valid notes after them
+    [['**kern', '**text'], ['*clefG2', '*'], ['4c', 'la'], ['4d', 'li'], ['4e', 'lu'], ['4f', 'le'], ['4g', 'lo'], ['4a', 'ma'], ['=2', '=2'], ['4b', 'mi'], ['2cc', 'mu'], ['==', '=='], ['*-', '*-']],
 )
 KERN_BAD = ('4zz', '4c§', '%%', '4c 4', 'c4z', '', '4d ', ' 4e', '4rP', '8r 8rK', 'rMT', '4c\u20ac', '4\x7fc',
             '"zz"', '"zz', '4c\u0301', '\u212bzz')    # cells that begin with a double quote (csv dialects); text that is not NFC-normalised     # '' = a cell truncated to nothing (two adjacent TABs)     # malformed in a **kern spine (raise on a fresh importer on the pinned tree)
@@ -104,9 +106,21 @@ def _data_cells(di):
     return out
 
 
+RUN_DOC = len(DOCS) - 1          # the long column: used by C12.b3 only
+
+
+def ob_b3(start: int, run: int, bad: int) -> bool:
+    """Runs of 1..8 malformed cells directly below each other in one spine (starting at the first, second or third data cell),
+    valid notes after them: every cell of the run is reported, every later note is still a note."""
+    assume(0 <= start < 3 and 1 <= run <= 8 and start + run <= 8 and 0 <= bad < 4)
+    st, rn, bd = choose(start, 3), choose(run - 1, 8) + 1, choose(bad, 4)
+    mask = ((1 << rn) - 1) << st
+    return _b_body(RUN_DOC, mask, (0, 2, len(KERN_BAD) + 1, len(KERN_BAD) + 12)[bd], 8)
+
+
 def ob_b(d: int, mask: int, bad: int) -> bool:
-    assume(0 <= d < len(DOCS))
-    di = choose(d, len(DOCS))
+    assume(0 <= d < RUN_DOC)
+    di = choose(d, RUN_DOC)
     n = _ncells(di)
     assume(0 <= mask < 2 ** n)
     assume(0 <= bad < 2 * len(KERN_BAD))      # second half: the SAME malformed text in every damaged cell (equal cells on one line are separate cells)
@@ -119,8 +133,8 @@ def _ncells(di):
 
 
 @native
-def _b_body(di, mask, bad):
-    cells_ = _data_cells(di)[:_ncells(di)]
+def _b_body(di, mask, bad, ncells=None):
+    cells_ = _data_cells(di)[:ncells or _ncells(di)]
     rows = [list(r) for r in DOCS[di]]
     damaged = []
     for k, (r, c) in enumerate(cells_):
@@ -271,6 +285,10 @@ OBLIGATIONS = [
        witnesses=[{'d': 0, 'mask': 5, 'bad': 0}], min_confirmed=300, enumerated='document, damage mask over the **kern data cells, malformed kind (rotating over the damaged cells, or the same text in all of them)',
        bounds={'quick': '4 documents (blank lines, global comments, split/join, non-kern spines) x every subset of the first 6 data cells x 17 malformed kinds (incl. the empty cell, cells with a blank at either end, cells beginning with a double quote, text that is not NFC-normalised, rests with note-only signs); a **root spine',
                'thorough': 'first 8 data cells'}),
+    Ob(id='C12.b3', fn=ob_b3, title='runs of 1..8 malformed cells directly below each other in one spine, valid notes after them',
+       budget_s={'quick': 120, 'thorough': 600}, witnesses=[{'start': 0, 'run': 5, 'bad': 0}], min_confirmed=40,
+       enumerated='first damaged cell (3), run length (1..8), malformed kind (4: rotating / the same text in every cell)',
+       bounds={'quick': 'one 8-note column next to a text spine; every run that fits', 'thorough': 'same'}),
     Ob(id='C12.b2', fn=ob_b2, title='stub tier: ANY rejected text is wrapped once, reported with its line, exported verbatim',
        budget_s={'quick': 170, 'thorough': 1800}, per_path_s=150.0, shard_of=lambda s, blank, col, second: blank + 3 * col + 6 * (1 if second else 0), shards={'quick': 12, 'thorough': 12},
        witnesses=[{'s': '4zz', 'blank': 1, 'col': 0, 'second': True}], min_confirmed=12,
